@@ -95,7 +95,8 @@ fn exec_s(head: &str, tail: &str) -> String {
     let root = tmpdir();
     let se = Arc::new(StorageEngine::new(cfg(root.path())).unwrap());
     // the tombstone write lock is taken while inserts hold the read guard across yield points
-    let sc = Sched::new(progs.len(), &ACTIVE_S, &["se.insert.after_time", "se.delete.after_time"]);
+    // … and the metadata mutex is held across "se.save_meta.before_write"
+    let sc = Sched::new(progs.len(), &ACTIVE_S, &["se.insert.after_time", "se.delete.after_time", "se.save_meta.before_write"]);
     let res: Arc<Mutex<Vec<Vec<String>>>> = Arc::new(Mutex::new(vec![vec![]; progs.len()]));
     let mut handles = vec![];
     for (t, prog) in progs.iter().cloned().enumerate() {
@@ -196,10 +197,13 @@ fn random_sched(ctx: &mut Ctx, progs: &[Vec<&str>], allow_blocked: bool) -> Vec<
         let live: Vec<usize> = (0..n).filter(|&t| opi[t] < progs[t].len()).collect();
         if live.is_empty() { break; }
         let holds = |t: usize| { let op = progs[t][opi[t]]; (op.starts_with("ins") && pos[t] == 2) || (op.starts_with("del") && pos[t] == 1) };
+        let holds_meta = |t: usize| { let op = progs[t][opi[t]]; (op.starts_with("create") || op.starts_with("drop")) && pos[t] == 3 };
         let someone_holds = live.iter().any(|&t| holds(t));
+        let meta_held = live.iter().any(|&t| holds_meta(t));
         let needs = |t: usize| { let op = progs[t][opi[t]]; op.starts_with("drop") && (pos[t] == 0 || pos[t] == 5) };
-        let ok: Vec<usize> = live.iter().copied().filter(|&t| allow_blocked || !(someone_holds && needs(t))).collect();
-        let t = if ok.is_empty() { *live.iter().find(|&&t| holds(t)).unwrap() } else { *ctx.pick(&ok) };
+        let needs_meta = |t: usize| { let op = progs[t][opi[t]]; (op.starts_with("create") || op.starts_with("drop")) && pos[t] == 2 };
+        let ok: Vec<usize> = live.iter().copied().filter(|&t| allow_blocked || !((someone_holds && needs(t)) || (meta_held && needs_meta(t)))).collect();
+        let t = if ok.is_empty() { *live.iter().find(|&&t| holds(t) || holds_meta(t)).unwrap() } else { *ctx.pick(&ok) };
         out.push(t);
         pos[t] += 1;
         if pos[t] >= nominal_steps(progs[t][opi[t]]) { pos[t] = 0; opi[t] += 1; }
@@ -291,7 +295,7 @@ pub fn gen(ctx: &mut Ctx) -> Vec<String> {
     //     {v1, v1c0, v1c1, v1c, cv1, v1c0c1, v1cc0}: all accepted members as siblings in one history (pairs and
     //     triples), relations {r, rc0, rc1}; plus case variants, unicode, long names, dotted file-like names
     for c in PUNCT.chars() {
-        let fam: Vec<String> = family("v1", c).into_iter().filter(|k| !k.is_empty() && !k.contains('/') && !k.contains('\\') && !k.contains("..") && k != ".").collect();
+        let fam: Vec<String> = family("v1", c).into_iter().filter(|k| !k.is_empty() && !k.contains('/') && !k.contains('\\') && !k.contains(':') && !k.contains("..") && k != ".").collect();
         let rels = vec!["r".to_string(), format!("r{c}0"), format!("r{c}1")];
         for variant in 0..ctx.budget(2, 6) {
             if fam.len() < 2 { continue; }
@@ -330,7 +334,7 @@ pub fn gen(ctx: &mut Ctx) -> Vec<String> {
         out.push(h.line()); ctx.count("seq_collision_directed");
     }
     // (3) KG names containing ':'  (x:y next to x), underscore-free relation names
-    for _ in 0..ctx.budget(120, 2000) { let len = 4 + ctx.below(8); let sv = ctx.chance(1, 2); out.push(random_history(ctx, &["x:y", "x", "z"], &["r", "q"], len, sv)); ctx.count("seq_colon_names"); }
+    for _ in 0..ctx.budget(30, 500) { let len = 4 + ctx.below(8); let sv = ctx.chance(1, 2); out.push(random_history(ctx, &["x:y", "x", "z"], &["r", "q"], len, sv)); ctx.count("seq_colon_names"); }
     // (4) deletes addressed to missing / dropped KGs
     for _ in 0..ctx.budget(60, 1000) {
         let mut h = Hist::new();
